@@ -31,7 +31,7 @@ def vec_case(rng, maxlen, kind):
         k = rng.below(13)
         v = rng.range(0, 99) if kind == "vec" else rng.range(65, 68)
         if k == 0:
-            ops.append("idx:%d" % interesting(rng, n))
+            ops.append("%s:%d" % (rng.choice(["idx", "idx", "cidx"]), interesting(rng, n)))
         elif k == 1 and kind == "vec":
             ops.append(rng.choice(["front", "back"]))
         elif k == 2:
